@@ -60,6 +60,11 @@ pub fn alloc_begin() {
     ON.with(|o| o.set(true));
 }
 /// Close the window and return the peak of live bytes allocated inside it.
+/// bytes currently held (allocated minus freed) since alloc_begin, while the window is open
+pub fn alloc_live() -> isize {
+    LIVE.with(|l| l.get())
+}
+
 pub fn alloc_end() -> usize {
     ON.with(|o| o.set(false));
     PEAK.with(|p| p.get().max(0) as usize)
